@@ -339,7 +339,14 @@ func CreateFinalError(code core.IssueCode, message string, properties map[string
 
 // CreateNonOptionalError creates a non-optional error with proper context.
 func CreateNonOptionalError(ctx *core.ParseContext) error {
+	return CreateNonOptionalErrorWithInst(ctx, nil)
+}
+
+// CreateNonOptionalErrorWithInst creates a non-optional error that carries the schema
+// internals, so that the schema's own message is consulted.
+func CreateNonOptionalErrorWithInst(ctx *core.ParseContext, inst any) error {
 	raw := CreateNonOptionalIssue(nil)
+	raw.Inst = inst
 	final := FinalizeIssue(raw, ctx, nil)
 	return NewZodError([]core.ZodIssue{final})
 }
